@@ -496,9 +496,11 @@ fn inputs(rng: &mut Rng, n: usize, maxstat: usize) -> Vec<Input> {
         }
     }
     v.append(&mut pre);
+    // (their generated configurations come from a separate stream, so adding a corpus file does not shift the random inputs)
+    let mut crng = Rng::new(0xC05C0);
     for (name, text) in corpus_files("C05").into_iter().chain(corpus_files("C06")) {
         v.push(Input { origin: "corpus", name: name.clone(), text: text.clone(), cfg: json!({}) });
-        v.push(Input { origin: "corpus", name, text, cfg: gen_cfg(rng) });
+        v.push(Input { origin: "corpus", name, text, cfg: gen_cfg(&mut crng) });
     }
     // bundled std annotations: default config always, plus generated configs
     for (name, text) in &stds {
@@ -548,9 +550,10 @@ fn main() {
             let mut skipped_big = 0usize;
             let mut skipped_err = 0usize;
             let mut ins = Vec::new();
+            let mut crng = Rng::new(0xC05C1);
             for (name, text) in corpus_files("C05") {
                 ins.push(Input { origin: "corpus", name: name.clone(), text: text.clone(), cfg: json!({}) });
-                ins.push(Input { origin: "corpus", name, text, cfg: gen_cfg(&mut rng) });
+                ins.push(Input { origin: "corpus", name, text, cfg: gen_cfg(&mut crng) });
             }
             let stds = std_files();
             let mut i = 0;
@@ -592,14 +595,20 @@ fn main() {
                 }
                 let Ok(out) = fmt(&inp.text, &cfg) else { continue };
                 let flags = NormFlags::of(&cfg);
+                // the property oracle on the same input (narrow signatures), so that a failing client obligation can be
+                // reported as the concrete violation it is
+                let viols: Vec<Value> = check(&inp.text, &cfg, "C05").0.iter().filter(|v| v.prop == "C05")
+                    .map(|v| { let (cm, sig) = narrow(&inp.text, &inp.cfg, v, "C05"); json!({"signature": sig, "what": v.what, "cfg": cm}) }).collect();
                 println!(
                     "{}",
                     json!({"kind": "real", "origin": inp.origin, "name": inp.name, "src": inp.text, "pcfg": printer_cfg(&cfg), "ir": ir, "out": out,
                            "norm": {"semi": flags.drop_semicolons, "quotes": flags.string_by_value, "parens": flags.drop_single_arg_parens},
-                           "cfg": inp.cfg})
+                           "cfg": inp.cfg, "viol": viols})
                 );
                 emitted += 1;
             }
+            // generated IRs: their own stream (the real inputs above follow --seed only)
+            let mut rng = Rng::new(args.u64("gseed", seed) ^ 0x6E);
             for _ in 0..ngen {
                 let cfgj = gen_printer_cfg(&mut rng);
                 let cfg = cfg_from_json(&cfgj);
